@@ -493,3 +493,120 @@ func JoinS(f func([]string) string) OpFunc {
 		return canonOf(out, false) + "|" + showL(l) + ";"
 	}
 }
+
+// ---- consistency of the emitted helpers with the emitted Equal (values may hold NaN)
+
+func anyEq[E any](eq func(a, b E) bool, xs []E, x E) bool {
+	for _, e := range xs {
+		if eq(e, x) {
+			return true
+		}
+	}
+	return false
+}
+
+// same reports bitwise identity of the printed forms (Equal is not reflexive on NaN)
+func same[E any](a, b E) bool { return canonOf(a, false) == canonOf(b, false) }
+
+// coveredBy: every x of xs is Equal to, or bit-identical with, some element of ys
+func coveredBy[E any](eq func(a, b E) bool, xs, ys []E) bool {
+	for _, x := range xs {
+		ok := false
+		for _, y := range ys {
+			if eq(y, x) || same(y, x) {
+				ok = true
+				break
+			}
+		}
+		if !ok {
+			return false
+		}
+	}
+	return true
+}
+
+func pairwiseNotEq[E any](eq func(a, b E) bool, xs []E) bool {
+	for i := range xs {
+		for j := range xs {
+			if i != j && eq(xs[i], xs[j]) {
+				return false
+			}
+		}
+	}
+	return true
+}
+
+// ContainsEq: Contains(l, x) == (some element of l is deriveEqual to x)
+func ContainsEq[E any](f func([]E, E) bool, eq func(a, b E) bool) OpFunc {
+	return func(c *Ctx, a []*SExp) string {
+		preViews[E](c, a[:1], a[1])
+		l := build[[]E](c, a[0])
+		x := build[E](c, a[1])
+		return Bool(f(l, x) == anyEq(eq, l, x)) + ";"
+	}
+}
+
+// UniqueEq: the result is pairwise not deriveEqual, comes from the input and covers it
+func UniqueEq[E any](f func([]E) []E, eq func(a, b E) bool) OpFunc {
+	return func(c *Ctx, a []*SExp) string {
+		preViews[E](c, a[:1])
+		l := build[[]E](c, a[0])
+		orig := append([]E(nil), l...)
+		out := f(l)
+		return Bool(pairwiseNotEq(eq, out) && coveredBy(eq, orig, out) && coveredBy(eq, out, orig)) + ";"
+	}
+}
+
+func SetEq[E comparable](f func([]E) map[E]struct{}, eq func(a, b E) bool) OpFunc {
+	return func(c *Ctx, a []*SExp) string {
+		l := build[[]E](c, a[0])
+		ks := keysOf(f(l))
+		return Bool(pairwiseNotEq(eq, ks) && coveredBy(eq, l, ks) && coveredBy(eq, ks, l)) + ";"
+	}
+}
+
+// UnionEq: the first list, then items that are new (not deriveEqual to an element of the first list or to
+// each other), covering both inputs
+func UnionEq[E any](f func(a, b []E) []E, eq func(a, b E) bool) OpFunc {
+	return func(c *Ctx, a []*SExp) string {
+		preViews[E](c, a[:2])
+		this := build[[]E](c, a[0])
+		that := build[[]E](c, a[1])
+		n := len(this)
+		orig := append([]E(nil), this...)
+		out := f(this, that)
+		ok := len(out) >= n
+		for i := 0; ok && i < n; i++ {
+			ok = same(out[i], orig[i])
+		}
+		if ok {
+			added := out[n:]
+			ok = pairwiseNotEq(eq, added) && coveredBy(eq, orig, out) && coveredBy(eq, that, out) && coveredBy(eq, added, that)
+			for _, x := range added {
+				ok = ok && !anyEq(eq, orig, x)
+			}
+		}
+		return Bool(ok) + ";"
+	}
+}
+
+// IntersectEq: exactly the elements of the first list that are deriveEqual to some element of the second
+func IntersectEq[E any](f func(a, b []E) []E, eq func(a, b E) bool) OpFunc {
+	return func(c *Ctx, a []*SExp) string {
+		preViews[E](c, a[:2])
+		this := build[[]E](c, a[0])
+		that := build[[]E](c, a[1])
+		var want []E
+		for _, e := range this {
+			if anyEq(eq, that, e) {
+				want = append(want, e)
+			}
+		}
+		out := f(this, that)
+		ok := len(out) == len(want)
+		for i := 0; ok && i < len(want); i++ {
+			ok = same(out[i], want[i])
+		}
+		return Bool(ok) + ";"
+	}
+}
